@@ -468,6 +468,26 @@ class Interp:
         if name in ('networkx.topological_sort', 'networkx.lexicographical_topological_sort') and args and isinstance(args[0], AObj) \
                 and 'nodes' in args[0].attrs and args[0].attrs['nodes'] is not TOP:
             return self._to_list(args[0].attrs['nodes'])          # some order of the abstract graph's nodes
+        if name == 'networkx.all_simple_paths' and len(args) >= 3 and isinstance(args[0], AObj) and isinstance(args[0].attrs.get('edges'), dict):
+            # every simple path source -> target of the abstract graph (a finite table: enumerated)
+            edges_ = list(args[0].attrs['edges'])
+            src, dst = args[1], args[2]
+            paths: list = []
+            if src not in args[0].attrs.get('nodes', {}):
+                raise ARaise('NodeNotFound (source)')
+            if dst not in args[0].attrs.get('nodes', {}):
+                raise ARaise('NodeNotFound (target)')
+
+            def walk(path):
+                for (u, v) in edges_:
+                    if u == path[-1] and v not in path:
+                        if v == dst:
+                            paths.append(path + [v])
+                        else:
+                            walk(path + [v])
+            if src != dst:
+                walk([src])
+            return AOneShot(lambda: paths)
         if name in ('networkx.descendants', 'networkx.ancestors', 'networkx.has_path') and args and isinstance(args[0], AObj) \
                 and isinstance(args[0].attrs.get('edges'), dict):
             edges = list(args[0].attrs['edges'])
@@ -556,6 +576,14 @@ class Interp:
                 return args[0] in recv.attrs.get('nodes', {})
             if last == 'has_edge':
                 return (args[0], args[1]) in edges
+            if last in ('subgraph',) and isinstance(recv.attrs.get('nodes'), dict):
+                # a view restricted to the given nodes: induced edges; the attribute dictionary `.graph` is the root's own
+                keep = set(self._to_list(args[0]))
+                view = AObj(recv.cls, {'nodes': {k: v for k, v in recv.attrs['nodes'].items() if k in keep},
+                                       'edges': {k: v for k, v in edges.items() if k[0] in keep and k[1] in keep}}, tag=recv.tag + '-view')
+                if 'graph' in recv.attrs:
+                    view.attrs['graph'] = recv.attrs['graph']
+                return view
             nodes = recv.attrs.get('nodes')
             if isinstance(nodes, dict):
                 # writers of an abstract graph under construction (networkx semantics: attributes are merged)
@@ -628,6 +656,14 @@ class Interp:
                 return None
             if last == 'copy':
                 return set(recv)
+            if last in ('update', 'difference_update', 'intersection_update', 'symmetric_difference_update'):
+                for a_ in args:
+                    getattr(recv, last)(set(self._to_list(a_)))
+                return None
+            if last == 'pop':
+                if not recv:
+                    raise ARaise('KeyError')
+                return recv.pop()
             if last in ('intersection', 'union', 'difference', 'symmetric_difference') and args:
                 others = [set(self._to_list(a)) for a in args]
                 res = set(recv)
@@ -660,6 +696,11 @@ class Interp:
             if last == 'clear':
                 recv.clear()
                 return None
+        if isinstance(recv, (dict, set, list)) and last in ('update', 'setdefault', 'popitem', 'extend', 'remove', 'sort', 'reverse', 'insert',
+                                                           'add', 'discard', 'pop', 'clear', 'append', '__setitem__', '__delitem__',
+                                                           'difference_update', 'intersection_update', 'symmetric_difference_update'):
+            # a mutation that is not modelled must not be skipped silently
+            raise AnalysisError(f'abstract interpretation: unmodelled mutating method {type(recv).__name__}.{last}')
         return TOP
 
     # ------------------------------------------------------------------ statements
@@ -826,6 +867,16 @@ class Interp:
                 env[st.target.id] = cur + val
             elif isinstance(st.op, ast.Sub) and isinstance(cur, (int, float)) and isinstance(val, (int, float)):
                 env[st.target.id] = cur - val
+            elif isinstance(cur, set) and isinstance(val, (set, frozenset)) and isinstance(st.op, (ast.BitOr, ast.BitAnd, ast.Sub, ast.BitXor)):
+                # in place: other references to the set see the change
+                if isinstance(st.op, ast.BitOr):
+                    cur |= val
+                elif isinstance(st.op, ast.BitAnd):
+                    cur &= val
+                elif isinstance(st.op, ast.Sub):
+                    cur -= val
+                else:
+                    cur ^= val
             else:
                 raise AnalysisError(f'abstract interpretation: unsupported augmented assignment {unparse(st)}')
             return
@@ -941,7 +992,7 @@ class Interp:
                         if v is not TOP:
                             return v
             if attr in ('predecessors', 'successors', 'in_edges', 'out_edges', 'has_node', 'has_edge', 'add_node', 'add_edge',
-                        'copy') and 'edges' in obj.attrs and isinstance(obj.attrs['edges'], dict):
+                        'copy', 'subgraph') and 'edges' in obj.attrs and isinstance(obj.attrs['edges'], dict):
                 return AExt(f'networkx.DiGraph.{attr}', recv=obj)           # an abstract graph given by its edge / node tables
             if isinstance(obj.cls, ClassInfo):
                 m = self.p.lookup_method(obj.cls, attr, env['__unit__'].cls if env.get('__unit__') else None)
@@ -1182,6 +1233,21 @@ class Interp:
             return self.eval(e.value, env)
         if isinstance(e, ast.BinOp) and isinstance(e.op, ast.Div) and 'operator.truediv' in self.ext_stubs:
             return self.ext_stubs['operator.truediv']([self.eval(e.left, env), self.eval(e.right, env)], {})
+        if isinstance(e, ast.BinOp) and isinstance(e.op, (ast.BitOr, ast.BitAnd, ast.BitXor, ast.Sub)):
+            a, b = self.eval(e.left, env), self.eval(e.right, env)
+            if isinstance(a, (set, frozenset)) and isinstance(b, (set, frozenset)):
+                if isinstance(e.op, ast.BitOr):
+                    return set(a) | set(b)
+                if isinstance(e.op, ast.BitAnd):
+                    return set(a) & set(b)
+                if isinstance(e.op, ast.BitXor):
+                    return set(a) ^ set(b)
+                return set(a) - set(b)
+            if isinstance(e.op, ast.BitOr) and isinstance(a, dict) and isinstance(b, dict):
+                return {**a, **b}
+            if isinstance(e.op, ast.Sub) and isinstance(a, int) and isinstance(b, int):
+                return a - b
+            return TOP
         if isinstance(e, ast.BinOp) and isinstance(e.op, (ast.Add, ast.Sub, ast.Mod)):
             a, b = self.eval(e.left, env), self.eval(e.right, env)
             if isinstance(e.op, ast.Add) and ((isinstance(a, str) and isinstance(b, str)) or
@@ -1292,16 +1358,98 @@ def key_states() -> List[Tuple[str, Optional[str]]]:
     return out
 
 
+_HD_API: Dict[int, Dict[str, FuncUnit]] = {}
+_HD_KEEP: List[Any] = []
+
+
+def hidden_dict_api(p: Program, ci: ClassInfo) -> Dict[str, FuncUnit]:
+    """The operations of the hiding dictionary class, found by what they do (interpreted on a one-key object), not by their
+    names: publish(key, value) puts the key into the UserDict data; hide(key) leaves the data alone and makes the key invisible
+    to exists(key, False); exists(key, with_hidden) is the two-argument predicate that tells the three states apart."""
+    if id(ci) in _HD_API:
+        return _HD_API[id(ci)]
+    _HD_KEEP.append(ci)
+
+    def fresh() -> AObj:
+        obj = AObj(ci, {'data': {}})
+        init = p.lookup_method(ci, '__init__')
+        if init is not None:
+            Interp(p, Oracle()).call_unit(init, [], {}, obj)
+        return obj
+
+    def npos(m: FuncUnit) -> int:
+        a = m.node.args
+        return len(a.args) - 1
+
+    def try_call(m, obj, args):
+        try:
+            return ('value', Interp(p, Oracle()).call_unit(m, list(args), {}, obj))
+        except ARaise as ex:
+            return ('raise', ex.what)
+        except AnalysisError as ex:
+            return ('undecided', str(ex))
+
+    methods = [m for m in ci.methods.values() if not m.name.startswith('__')]
+    api: Dict[str, FuncUnit] = {}
+    for m in methods:
+        if npos(m) == 2:
+            obj = fresh()
+            r = try_call(m, obj, ['K', 7])
+            if r[0] == 'value' and obj.attrs['data'].get('K') == 7:
+                api.setdefault('publish', m)
+    if 'publish' not in api:
+        raise AnalysisError(f'{ci.name}: no publishing method (key, value) found (storage-world anchor vanished)')
+
+    def published() -> AObj:
+        obj = fresh()
+        Interp(p, Oracle()).call_unit(api['publish'], ['K', 7], {}, obj)
+        return obj
+    # exists: (key, flag) -> bool, true for a published key under both flags, false for an absent key
+    cands = []
+    for m in methods:
+        if npos(m) == 2 and m is not api['publish']:
+            r1, r2 = try_call(m, published(), ['K', False]), try_call(m, published(), ['K', True])
+            r3 = try_call(m, fresh(), ['K', True])
+            if r1 == ('value', True) and r2 == ('value', True) and r3 == ('value', False):
+                cands.append(m)
+    # hide: (key) -> data unchanged, exists(key, False) turns false, exists(key, True) stays true
+    for m in methods:
+        if npos(m) == 1:
+            for ex_ in cands:
+                obj = published()
+                r = try_call(m, obj, ['K'])
+                if r[0] == 'value' and obj.attrs['data'].get('K') == 7 \
+                        and try_call(ex_, obj, ['K', False]) == ('value', False) and try_call(ex_, obj, ['K', True]) == ('value', True):
+                    api.setdefault('hide', m)
+                    api.setdefault('exists', ex_)
+    if 'hide' not in api or 'exists' not in api:
+        raise AnalysisError(f'{ci.name}: hide(key) / exists(key, with_hidden) not found (storage-world anchor vanished)')
+    # delete: (key) -> the key leaves the data
+    for m in methods:
+        if npos(m) == 1 and m is not api['hide']:
+            obj = published()
+            r = try_call(m, obj, ['K'])
+            if r[0] == 'value' and 'K' not in obj.attrs['data']:
+                api.setdefault('delete', m)
+    _HD_API[id(ci)] = api
+    return api
+
+
 def make_hidden_dict(p: Program, ci: ClassInfo, content: Dict[str, Tuple[str, Any]]) -> AObj:
-    """content: key -> (presence, value)"""
-    data, hidden = {}, set()
+    """content: key -> (presence, value).  The object is built through the class's own constructor and operations."""
+    api = hidden_dict_api(p, ci)
+    obj = AObj(ci, {'data': {}})
+    init = p.lookup_method(ci, '__init__')
+    interp = Interp(p, Oracle())
+    if init is not None:
+        interp.call_unit(init, [], {}, obj)
     for k, (pres, val) in content.items():
         if pres == 'absent':
             continue
-        data[k] = val
+        interp.call_unit(api['publish'], [k, val], {}, obj)
         if pres == 'hidden':
-            hidden.add(k)
-    return AObj(ci, {'data': data, '_hidden_keys': hidden})
+            interp.call_unit(api['hide'], [k], {}, obj)
+    return obj
 
 
 def make_storage(p: Program, storage_cls: ClassInfo, contents: Dict[str, Dict[str, Tuple[str, Any]]]) -> AObj:
@@ -1313,7 +1461,11 @@ def make_storage(p: Program, storage_cls: ClassInfo, contents: Dict[str, Dict[st
     return obj
 
 
-def presence_of(hd: AObj, key) -> str:
+def presence_of(hd: AObj, key, p: Optional[Program] = None) -> str:
     if key not in hd.attrs['data']:
         return 'absent'
-    return 'hidden' if key in hd.attrs['_hidden_keys'] else 'visible'
+    if p is None:
+        raise AnalysisError('presence_of: the program is needed to ask the dictionary itself')
+    api = hidden_dict_api(p, hd.cls)
+    visible = Interp(p, Oracle()).call_unit(api['exists'], [key, False], {}, hd)
+    return 'visible' if visible is True else 'hidden'
